@@ -67,6 +67,41 @@ type nopObserver struct{}
 func (nopObserver) Add(certificate.Supplier) {}
 func (nopObserver) Start() error             { return nil }
 
+// recObserver keeps the suppliers the mechanisms register; CollectCertificateMetrics asks them the way the
+// certificate expiry metrics do with every collection.
+type recObserver struct {
+	mut  sync.Mutex
+	sups []certificate.Supplier
+}
+
+func (o *recObserver) Add(s certificate.Supplier) {
+	o.mut.Lock()
+	defer o.mut.Unlock()
+
+	o.sups = append(o.sups, s)
+}
+
+func (o *recObserver) Start() error { return nil }
+
+// CollectCertificateMetrics does what a collection of the certificate expiry metrics does: every registered
+// supplier is asked for its certificates, which are only read. It returns the number of certificates seen.
+func (w *World) CollectCertificateMetrics() int {
+	w.certs.mut.Lock()
+	sups := append([]certificate.Supplier{}, w.certs.sups...)
+	w.certs.mut.Unlock()
+
+	n := 0
+
+	for _, s := range sups {
+		for _, c := range s.Certificates() {
+			_ = c.NotAfter
+			n++
+		}
+	}
+
+	return n
+}
+
 // WorldOpts describes the configuration a World is assembled from.
 type WorldOpts struct {
 	Conf  *config.Configuration // nil: default configuration
@@ -89,6 +124,7 @@ type World struct {
 	KHR     keyholder.Registry
 	Watcher *RecWatcher
 	Cache   cache.Cache
+	certs   *recObserver
 
 	Decision http.Handler
 	Proxy    http.Handler
@@ -145,9 +181,9 @@ func NewWorld(o WorldOpts) (*World, error) {
 		log = zerolog.New(io.Discard).Level(lvl)
 	}
 
-	w := &World{Conf: conf, Mode: o.Mode, Watcher: &RecWatcher{}, KHR: NewKHR(), log: log}
+	w := &World{Conf: conf, Mode: o.Mode, Watcher: &RecWatcher{}, KHR: NewKHR(), log: log, certs: &recObserver{}}
 
-	mf, err := mechanisms.NewMechanismFactory(conf, log, w.Watcher, w.KHR, nopObserver{})
+	mf, err := mechanisms.NewMechanismFactory(conf, log, w.Watcher, w.KHR, w.certs)
 	if err != nil {
 		return nil, err
 	}
